@@ -39,6 +39,8 @@ class Eval:
         self.bound = {}  # name -> every term ever bound to a local of that name (including branch-local lets)
         self.out = []    # output effects of printers: (conds, loops, ('write', template, args) | ('emit', callee, args))
         self.loops = []
+        self._helper_depth = 0
+        self._helper_stack = []
 
     # ------------------------------------------------------------------ entry points
     def function(self, body, args=None, depth=0):
@@ -536,7 +538,35 @@ class Eval:
             bs = self.facts.bodies[target]
             if len(bs) == 1:
                 return self.function(bs[0], args, depth + 1)
+        # a crate-local function that did not exist when the rules were written (rules/known_functions.txt) is a helper extracted later:
+        # it is transparent (inlined), so that extracting a helper leaves the templates unchanged
+        if target in self.facts.bodies and target not in known_functions() and self._helper_depth < 6 and target not in self._helper_stack:
+            bs = self.facts.bodies[target]
+            if len(bs) == 1 and len(bs[0].get("params", [])) == len(args):
+                self._helper_depth += 1
+                self._helper_stack.append(target)
+                try:
+                    saved_ret, saved_c = self.returns, self.conds
+                    v = self.function(bs[0], args, depth + 1)
+                    self.returns, self.conds = saved_ret, saved_c
+                    return v
+                finally:
+                    self._helper_stack.pop()
+                    self._helper_depth -= 1
         return ("call", name, tuple(args))
+
+
+_KNOWN = None
+
+
+def known_functions():
+    global _KNOWN
+    if _KNOWN is None:
+        import os
+        p = os.path.join(os.path.dirname(os.path.abspath(__file__)), "known_functions.txt")
+        with open(p) as fh:
+            _KNOWN = {l.strip() for l in fh if l.strip() and not l.startswith("#")}
+    return _KNOWN
 
 
 def proj_reduce(term, path):
